@@ -30,6 +30,7 @@ type c16cb struct {
 	ID   int
 	Kind string // test | pt
 	Fail bool
+	Path string // z.IssuePath of a struct-level test: where it reports, nothing more
 }
 
 type c16model struct {
@@ -184,7 +185,9 @@ func runC16(x *X) *Violation {
 		}
 	}
 	addCB := func(s *z.StructSchema, cb c16cb) {
-		if cb.Kind == "test" {
+		if cb.Kind == "test" && cb.Path != "" {
+			s.TestFunc(mkTest(cb), z.IssueCode("t"+strconv.Itoa(cb.ID)), z.IssuePath(cb.Path))
+		} else if cb.Kind == "test" {
 			s.TestFunc(mkTest(cb), z.IssueCode("t"+strconv.Itoa(cb.ID)))
 		} else {
 			s.PostTransform(mkPT(cb))
@@ -201,6 +204,9 @@ func runC16(x *X) *Violation {
 	breal := z.Struct(bs)
 	for i := 0; i < w.P("base_tests"); i++ {
 		cb := c16cb{ID: 9000 + i, Kind: "test", Fail: i%2 == 1}
+		if i%2 == 1 && len(base.Fields) > 0 {
+			cb.Path = base.Fields[(i/2)%len(base.Fields)].Key // reports under a field's name; the field may be picked away later
+		}
 		addCB(breal, cb)
 		bm.tests = append(bm.tests, cb)
 	}
@@ -486,6 +492,9 @@ func runC16(x *X) *Violation {
 			case "test", "pt":
 				cbid++
 				cb := c16cb{ID: c*100 + cbid, Kind: op.Arg, Fail: op.ErrAt == 1 && op.Arg == "test"}
+				if cb.Fail && len(op.Input.L) > 0 && cbid%2 == 0 {
+					cb.Path = op.Input.L[0].S // a failing test that reports under a (base) field's name
+				}
 				addCB(src.real, cb)
 				if op.Arg == "test" {
 					src.m.tests = append(src.m.tests, cb)
